@@ -8,7 +8,8 @@ func TestC03K(t *testing.T) { RunK(t, CfgC03()) }
 func TestC04K(t *testing.T) { RunK(t, CfgC04()) }
 func TestC05(t *testing.T) { RunK(t, CfgC05()) }
 func TestC06(t *testing.T) { RunK(t, CfgC06()) }
-func TestC08(t *testing.T) { RunK(t, CfgC08()) }
+func TestC08K(t *testing.T) { RunK(t, CfgC08()) }
+func TestC08A(t *testing.T) { RunC08A(t) }
 func TestC09K(t *testing.T) { RunK(t, CfgC09()) }
 func TestC11(t *testing.T) { RunK(t, CfgC11()) }
 func TestC12(t *testing.T) { RunK(t, CfgC12()) }
